@@ -80,4 +80,5 @@ func checkC04(c *Ctx, r *rep.Report) {
 		ruleVerifyWrappers(r, p, rl, fl)
 		ruleBatchAll(c, r, p, rl, fl)
 	}
+	scalarLayer(c, r)
 }
